@@ -185,7 +185,7 @@ _mk(2, [1, 1], "thorough")
 @obligation("C06", "kalman_bounded", ensures=["B-C06-seq.predict", "B-C06-seq.update", "B-C06-seq.psd", "B-C06-seq.noobs", "B-C06-seq.weights"],
             fns=[UK + "UnscentedKalmanFilter.predict", UK + "UnscentedKalmanFilter.update", UK + "UnscentedKalmanFilter.forecast"], mode="R", native_only=True, samples=150,
             bounded="BOUNDED stand-in, not a proof: 150 (quick) / 1500 (thorough) random linear-Gaussian systems per run with state dimension 1..8, 0..4 stacked observations of dimension 1..3, "
-                    "alpha in [0.3, 1], both resampling modes, three consecutive predict/update steps on ONE filter object (different stacks per step); the proofs above stop at dimension 2 and two stacked scalars",
+                    "alpha in [0.3, 1], both resampling modes, three consecutive predict/update steps on ONE filter object (different stacks per step), each step either directly or through a worker copy and the result objects; the proofs above stop at dimension 2 and two stacked scalars",
             note="a numpy Kalman filter run next to the real UnscentedKalmanFilter over a three-step sequence: predicted and posterior mean/covariance agree (redraw mode: the Kalman update; no-redraw mode: "
                  "the documented variant with the propagated sigma points), covariances symmetric PSD and posterior <= prior, a step without observations returns the propagated mean, weights sum to one")
 def kalman_bounded(vc):
@@ -208,8 +208,16 @@ def kalman_bounded(vc):
     vc.ensure("B-C06-seq.weights", abs(f.mean_weight.sum() - 1) < 1e-9)
     kx, kP = x.copy(), P.copy()
     psd = lambda M, ref: bool(np.allclose(M, M.T, atol=1e-8 * (1 + abs(ref).max()))) and np.linalg.eigvalsh((M + M.T) / 2).min() > -1e-7 * (1 + abs(ref).max())
+    import copy
     for step in range(3):
-        f.predict(60.0 * (step + 1))
+        # the way a run does it: a worker predicts / updates a COPY and the result object is applied to the agent's filter (EstPredictRegistration, EstUpdateRegistration);
+        # either route, in any mix over the sequence, must give the same filter
+        if rng.integers(0, 2):
+            w = copy.deepcopy(f)
+            w.predict(60.0 * (step + 1))
+            f.applyFilterResult(w.getPredictionResult())
+        else:
+            f.predict(60.0 * (step + 1))
         px, FPF = F @ kx, F @ kP @ F.T
         pP = FPF + Q
         ok["predict"] &= bool(np.allclose(f.pred_x, px, rtol=1e-6, atol=1e-6) and np.allclose(f.pred_p, pP, rtol=1e-6, atol=1e-6))
@@ -228,9 +236,14 @@ def kalman_bounded(vc):
                 def calculateMeasurement(self, sensor_eci, state, utc, noisy=False):
                     vals = self.H @ state
                     return {f"c{i}": vals[i] for i in range(len(vals))}
-            obs.append(_NS(julian_date=2459000.5, sensor_eci=None, measurement=Meas(H), r_matrix=R, measurement_states=y))
+            obs.append(_NS(julian_date=2459000.5, sensor_eci=None, measurement=Meas(H), r_matrix=R, measurement_states=y, sensor_id=900 - len(obs), target_id=7))
             Hs.append(H); Rs.append(R); ys.append(y)
-        f.update(obs)
+        if rng.integers(0, 2):
+            w = copy.deepcopy(f)
+            w.update(obs)
+            f.applyFilterResult(w.getUpdateResult())
+        else:
+            f.update(obs)
         if n_obs == 0:
             ok["noobs"] &= bool(np.allclose(f.est_x, px, rtol=1e-6, atol=1e-6) and np.allclose(f.est_p, f.pred_p))
             kx, kP = px, pP
